@@ -161,6 +161,14 @@ fn lax_observe(c: &Case) -> Result<Vec<Pair>, String> {
         ("lax-native-substitution-with-pending-images", lax::functor::try_define_map_arrow(&fu2, &lf)),
         ("lax-native-witness-substitution", lax::functor::map_arrow_witness(&fu, &lf).map(|x| x.0)),
     ];
+    // the public wrapper that turns a lax functor into a strict one, applied through the strict trait
+    {
+        use open_hypergraphs::strict::functor::Functor as StrictFunctor;
+        let wrapped = lax::functor::dyn_functor::to_dyn_functor(fu.clone());
+        let r = wrapped.map_arrow(&B::<VecKind>::to_dev(&c.f));
+        let p = B::<VecKind>::from_dev(&r).map_err(|e| format!("to_dyn_functor(F).map_arrow: ill-formed result: {}", e))?;
+        out.push(("lax-functor-wrapped-as-strict-substitution", p, want.clone()));
+    }
     for (name, r) in native {
         let r = r.ok_or_else(|| format!("{}: the native path reports absence for a diagram without pending unifications", name))?;
         let p = B::<VecKind>::from_dev(&r.to_strict()).map_err(|e| format!("{}: ill-formed result: {}", name, e))?;
@@ -291,7 +299,7 @@ impl Check for C12 {
         out
     }
     fn rule() -> &'static str {
-        "Each run draws a composable pair (f,g) of small well-formed diagrams (<= ~6 nodes, <= 3 hyperedges; non-monogamous, cyclic, isolated nodes, zero-arity operations included), two object lists and a functor spec: object map generator -> list of length 1 / 0-1 / 0-3 over 1-3 target labels, operation map per label one of {single operation, composite of two operations, spider-only, empty-when-possible}. A harness-defined strict::Functor<K,..> generic in the device applies it on sim/control, vec and 1-2 perturbed schedules; the lax trait runs through dyn_functor on the Vec device, once with strict images and argument and once with images and argument that still carry pending unifications (every hyperedge on fresh nodes unified with the original ones and every output position on a twin node unified with its node, in two node orders); the native lax entry points try_define_map_arrow (strict and pending images) and map_arrow_witness (diagram component) are applied to the quotient-free argument and must be present and isomorphic to the same substitution. Oracle: F(f) isomorphic to the reference substitution (node -> list, hyperedge -> image glued along expanded ports), hence the type; F(f;g) ≅ Ff;Fg, F(f⊗g) ≅ Ff⊗Fg, F(id) ≅ id, F(twist) ≅ twist, F(f†) ≅ (Ff)†, Identity functor ≅ argument. Non-trivial iff f has a node; distinct = distinct (workload fingerprint, device decision fingerprint)."
+        "Each run draws a composable pair (f,g) of small well-formed diagrams (<= ~6 nodes, <= 3 hyperedges; non-monogamous, cyclic, isolated nodes, zero-arity operations included), two object lists and a functor spec: object map generator -> list of length 1 / 0-1 / 0-3 over 1-3 target labels, operation map per label one of {single operation, composite of two operations, spider-only, empty-when-possible}. A harness-defined strict::Functor<K,..> generic in the device applies it on sim/control, vec and 1-2 perturbed schedules; the lax trait runs through dyn_functor on the Vec device, once with strict images and argument and once with images and argument that still carry pending unifications (every hyperedge on fresh nodes unified with the original ones and every output position on a twin node unified with its node, in two node orders); the wrapper to_dyn_functor (applied through the strict trait) and the native lax entry points try_define_map_arrow (strict and pending images) and map_arrow_witness (diagram component) are applied to the quotient-free argument and must be present and isomorphic to the same substitution. Oracle: F(f) isomorphic to the reference substitution (node -> list, hyperedge -> image glued along expanded ports), hence the type; F(f;g) ≅ Ff;Fg, F(f⊗g) ≅ Ff⊗Fg, F(id) ≅ id, F(twist) ≅ twist, F(f†) ≅ (Ff)†, Identity functor ≅ argument. Non-trivial iff f has a node; distinct = distinct (workload fingerprint, device decision fingerprint)."
     }
     fn assumptions() -> Vec<&'static str> {
         vec![
